@@ -285,12 +285,17 @@ func VerifyFunc(prog *Program, db *ContractDB, fn *ssa.Function, ct *Contract, c
 	// loop ordinals named in the contract must exist
 	if ct != nil {
 		nl := len(x.loopsOf(fn))
+		missing := false
 		for n := range ct.Loops {
 			if n < 1 || n > nl {
-				res.Errors = append(res.Errors, fmt.Sprintf("contract names loop %d but the function has %d loops", n, nl))
+				// the loop a clause speaks about is gone: a failed structural obligation (like a
+				// call anchor that is never reached), not an engine error
+				missing = true
+				x.obls = append(x.obls, &Obligation{Name: fmt.Sprintf("%s/anchor:loop %d", res.Label, n), Func: res.Label, Kind: "anchor",
+					Goal: x.b.False(), Bank: x.b, Info: fmt.Sprintf("the contract names loop %d but the function has %d loops", n, nl), Property: propsOf(ct)})
 			}
 		}
-		if len(res.Errors) > 0 {
+		if missing {
 			return
 		}
 	}
